@@ -989,14 +989,10 @@ Examples:
             constraint = fixed.strip()
 
             # Replace 'spread', 'mean', 'variance', 'product' (uses numpy, not mystic)
-            if constraint.find('spread(') != -1:
-                constraint = constraint.replace('spread(', 'ptp(')
-            if constraint.find('mean(') != -1:
-                constraint = constraint.replace('mean(', 'average(')
-            if constraint.find('variance(') != -1:
-                constraint = constraint.replace('variance(', 'var(')
-            if constraint.find('product(') != -1:
-                constraint = constraint.replace('product(', 'prod(')
+            constraint = re.sub(_name % 'spread' + r'\(', 'ptp(', constraint)
+            constraint = re.sub(_name % 'mean' + r'\(', 'average(', constraint)
+            constraint = re.sub(_name % 'variance' + r'\(', 'var(', constraint)
+            constraint = re.sub(_name % 'product' + r'\(', 'prod(', constraint)
 
             # Sorting into equality and inequality constraints, and making all
             # inequality constraints in the form expression <= 0. and all 
@@ -1081,14 +1077,10 @@ Examples:
         constraint = line.strip()
 
         # Replace 'ptp', 'average', and 'var' (uses mystic, not numpy)
-        if constraint.find('ptp(') != -1:
-            constraint = constraint.replace('ptp(', 'spread(')
-        if constraint.find('average(') != -1:
-            constraint = constraint.replace('average(', 'mean(')
-        if constraint.find('var(') != -1:
-            constraint = constraint.replace('var(', 'variance(')
-        if constraint.find('prod(') != -1:
-            constraint = constraint.replace('prod(', 'product(')
+        constraint = re.sub(_name % 'ptp' + r'\(', 'spread(', constraint)
+        constraint = re.sub(_name % 'average' + r'\(', 'mean(', constraint)
+        constraint = re.sub(_name % 'var' + r'\(', 'variance(', constraint)
+        constraint = re.sub(_name % 'prod' + r'\(', 'product(', constraint)
         return constraint
 
     def _process_expression(expression):
